@@ -3,6 +3,7 @@ package main
 import (
 	"fmt"
 	"go/types"
+	"sort"
 	"strings"
 
 	"golang.org/x/tools/go/ssa"
@@ -84,7 +85,7 @@ func (m *Model) mayDemoteRec(f *ssa.Function, spec map[string]bool, onStack map[
 	la := m.Locks()
 	facts, live := m.Facts(f, spec)
 	res, complete := false, true
-	for _, b := range f.Blocks {
+	for _, b := range liveBlocks(f) {
 		if !live[b] {
 			continue
 		}
@@ -149,7 +150,7 @@ func (m *Model) returnsPrevClaim(f *ssa.Function, depth int) bool {
 	}
 	la := m.Locks()
 	any := false
-	for _, b := range f.Blocks {
+	for _, b := range liveBlocks(f) {
 		if b == f.Recover {
 			continue
 		}
@@ -219,7 +220,7 @@ func (m *Model) unwrapBound(fn *ssa.Function) *ssa.Function {
 	}
 	// fall back: the single static callee of the wrapper
 	var callee *ssa.Function
-	for _, b := range fn.Blocks {
+	for _, b := range liveBlocks(fn) {
 		for _, in := range b.Instrs {
 			if c, ok := in.(*ssa.Call); ok {
 				if sc := c.Call.StaticCallee(); sc != nil {
@@ -302,7 +303,7 @@ func cutReach(target *ssa.BasicBlock, cut func(pred *ssa.BasicBlock, succ int) b
 		}
 		seen[b] = true
 		for i, s := range b.Succs {
-			if cut(b, i) {
+			if cut(b, i) || deadEdge(b, i) {
 				continue
 			}
 			if walk(s) {
@@ -425,4 +426,19 @@ func (m *Model) defersDoneFirst(f *ssa.Function) bool {
 		}
 	}
 	return false
+}
+
+// sortedFns returns the functions of a set in source order (deterministic iteration).
+func sortedFns(set map[*ssa.Function]bool) []*ssa.Function {
+	var out []*ssa.Function
+	for f := range set {
+		out = append(out, f)
+	}
+	sort.Slice(out, func(i, j int) bool {
+		if out[i].Pos() != out[j].Pos() {
+			return out[i].Pos() < out[j].Pos()
+		}
+		return out[i].String() < out[j].String()
+	})
+	return out
 }
